@@ -522,12 +522,26 @@ func c17IdentityUnchanged(r *an.Run) {
 		}
 		found = true
 		var callees []string
+		var calls []ssa.CallInstruction
 		for _, in := range an.FollowJumps(c.Target).Instrs {
 			if call, ok := in.(ssa.CallInstruction); ok {
 				callees = append(callees, an.TrimModule(an.CalleeName(call)))
+				calls = append(calls, call)
 			}
 		}
-		good := len(callees) == 1 && strings.HasSuffix(callees[0], "changeFinder).unchanged")
+		// the one call of the arm is recognised by what it does: it copies the Comments of the old element's
+		// value to the new element's value
+		good := false
+		if len(calls) == 1 {
+			if g := an.StaticCallee(calls[0]); g != nil && an.InModule(g) && g.Blocks != nil {
+				fromP, toP := commentCarrier(g)
+				args := calls[0].Common().Args
+				if fromP >= 0 && fromP < len(args) && toP < len(args) {
+					good = strings.HasPrefix(an.Path(args[fromP]), f.Params[len(f.Params)-2].Name()+".Children[") &&
+						strings.HasPrefix(an.Path(args[toP]), f.Params[len(f.Params)-1].Name()+".Children[")
+				}
+			}
+		}
 		r.Check(good, short(f)+"|identity-arm", c.If.Pos(), "for an element the edit script marks Identity, walkSlice records the pair as unchanged (calls made in that arm: %v): its comments stay attached in the next snapshot", callees)
 	}
 	r.Check(found, short(f)+"|identity-case", f.Pos(), "walkSlice distinguishes the Identity edit")
@@ -725,4 +739,43 @@ func containmentPredicate(call *ssa.Call, elem func(ssa.Value) bool, classifyWit
 		return "not:inside"
 	}
 	return ""
+}
+
+// commentCarrier recognises `to.Comments = from.Comments`: the indices of the
+// parameters playing from and to, or -1.
+func commentCarrier(g *ssa.Function) (from, to int) {
+	from, to = -1, -1
+	idx := func(v ssa.Value) int {
+		for i, p := range g.Params {
+			if ssa.Value(p) == v {
+				return i
+			}
+		}
+		return -1
+	}
+	n := 0
+	for _, in := range an.StoresIn(g) {
+		st, ok := in.(*ssa.Store)
+		if !ok {
+			continue
+		}
+		n++
+		fa, ok := st.Addr.(*ssa.FieldAddr)
+		if !ok || fieldNameOf(fa) != "Comments" {
+			continue
+		}
+		ld, ok := st.Val.(*ssa.UnOp)
+		if !ok {
+			continue
+		}
+		fb, ok := ld.X.(*ssa.FieldAddr)
+		if !ok || fieldNameOf(fb) != "Comments" {
+			continue
+		}
+		from, to = idx(fb.X), idx(fa.X)
+	}
+	if n != 1 || from == to {
+		return -1, -1
+	}
+	return from, to
 }
